@@ -84,7 +84,7 @@ def gen_specidx():
         else:
             echo[lean_name] = {'source': '%s: %s = %s' % (fn_name, py_name, src), 'lean': term}
         sig = '(N : Nat) (b : Bool)' if cond else '(N : Nat)'
-        defs.append('/-- %s -/\ndef %s %s : Nat := %s\n' % (doc or ('`%s` in `%s`' % (py_name, fn_name)), lean_name, sig, term))
+        defs.append('/-- %s -/\nabbrev %s %s : Nat := %s\n' % (doc or ('`%s` in `%s`' % (py_name, fn_name)), lean_name, sig, term))
 
     for f in ('periodogram', 'periodogram_csd'):
         emit(f + '_Fn', f, 'Fn', 'N')
@@ -115,7 +115,7 @@ def gen_specidx():
     except (Unsupported, AttributeError) as e:
         echo['welch_fxy_len'] = {'unparsed': str(e)}
         cplx, real = '0', '0'
-    defs.append('/-- `fxy_len` in `get_spectra` (b = complex input) -/\ndef welch_fxy_len (N : Nat) (b : Bool) : Nat := if b then %s else %s\n' % (cplx, real))
+    defs.append('/-- `fxy_len` in `get_spectra` (b = complex input) -/\nabbrev welch_fxy_len (N : Nat) (b : Bool) : Nat := if b then %s else %s\n' % (cplx, real))
 
     text = ('-- GENERATED by harness/translate_c04.py from nitime/algorithms/spectral.py (index formulas). DO NOT EDIT.\n'
             'namespace Nitime.Generated.SpecIdx\n\n' + '\n'.join(defs) + '\nend Nitime.Generated.SpecIdx\n')
